@@ -53,12 +53,6 @@ def enableSecurity (enabled : List Sec) (p : String) (m : Nat) : List Sec :=
 def enabledOf (calls : List (String × Nat)) : List Sec :=
   calls.foldl (fun acc c => enableSecurity acc c.1 c.2) []
 
-/-- `cfg.enabledSec` after `server.New(opts...)`: the options in order, and — when the regenerated
-    fact says so — None / None if they enabled nothing -/
-def configured (calls : List (String × Nat)) : List Sec :=
-  let e := enabledOf calls
-  if Gen.SrvSec.defaultsToNone && e.isEmpty then [⟨policyNone, modeNone⟩] else e
-
 /-! ### advertised endpoints: `initEndpoints`, `GetEndpoints` -/
 
 structure SrvCfg where
@@ -150,12 +144,9 @@ def readChunkOpn (_srv : SrvCfg) (c : ChanCfg) (o : Opn) : Option ChanCfg :=
     if c.mode == modeNone then (if o.body == .plain then some c else none) else none
 
 /-- `handleOpenSecureChannelRequest` -/
-def handleOpen (srv : SrvCfg) (c : ChanCfg) (o : Opn) : Option ChanCfg :=
+def handleOpen (c : ChanCfg) (o : Opn) : Option ChanCfg :=
   if o.protoVer != 0 then none                            -- BadProtocolVersionUnsupported
   else if o.authTok != 0 then none                        -- BadSecureChannelTokenUnknown
-  -- `cfg.AcceptSecurity(cfg.SecurityPolicyURI, req.SecurityMode)`: the server's enabled pairs
-  -- (present when the regenerated fact says the check is wired in)
-  else if Gen.SrvSec.opnChecksEnabled && !srv.enabled.contains ⟨c.policy, o.mode⟩ then none   -- BadSecurityPolicyRejected
   else
     -- s.cfg.SecurityMode = req.SecurityMode
     let c := { c with mode := o.mode }
@@ -163,21 +154,21 @@ def handleOpen (srv : SrvCfg) (c : ChanCfg) (o : Opn) : Option ChanCfg :=
     else if !supported c.policy then none                 -- uapolicy.Asymmetric / Symmetric
     else some c                                           -- response sent, instance active
 
-/-- the server's reaction to the first OPN of a connection -/
+/-- the server's reaction to the first OPN of a connection.  `srv.enabled` is a
+    parameter and is **not used**: that is the code (`Gen.SrvSec.enabledSecReaders`). -/
 def serverOpn (srv : SrvCfg) (o : Opn) : Outcome :=
   match readChunkOpn srv freshChan o with
   | none => .reject
   | some c =>
-    match handleOpen srv c o with
+    match handleOpen c o with
     | none => .reject
     | some c => .accept ⟨c.policy, c.mode⟩
 
 /-! ### the explicit acceptance condition and the classes of wrongly accepted requests -/
 
 /-- closed form of `serverOpn … = accept` (proved equivalent in Props/C30) -/
-def acceptable (srv : SrvCfg) (o : Opn) : Bool :=
+def acceptable (_srv : SrvCfg) (o : Opn) : Bool :=
   o.protoVer == 0 && o.authTok == 0 && supported o.policy &&
-  (!Gen.SrvSec.opnChecksEnabled || srv.enabled.contains ⟨o.policy, o.mode⟩) &&
   (if o.policy == policyNone then o.body == .plain && o.mode == modeNone
    else o.cert == .good && o.body == .secured)
 
